@@ -55,6 +55,13 @@ P == CASE Profile = "c04q" ->
              idirs |-> {<<Iu("inc"), Iu("sys")>>, <<Iu("inc"), Is("sys")>>, <<Iu("bld"), Iu("inc"), Iu("sys")>>,
                         <<Iu("ext"), Iu("inc"), Is("sys")>>},
              forced |-> {<<>>}, nents |-> 3, plats |-> <<"p1", "p2", "p3">>]
+      [] Profile = "c10" ->
+            \* headers that change and test the macro state, included several times by one TU, inside and outside the root
+            [slots |-> <<<<"inc", "h.h">>, <<"ext", "g.h">>, <<"inc", "g.h">>>>,
+             bodies |-> {"testX", "defX", "undefX", "plain", "def"}, stmts |-> {"qh", "ah", "qg", "ag", "defX", "undefX", "testX"},
+             maxmain |-> 4, nmains |-> 1,
+             idirs |-> {<<Iu("inc"), Iu("ext")>>, <<Iu("ext"), Iu("inc")>>},
+             forced |-> {<<>>}, nents |-> 1, plats |-> <<"p1">>]
       [] Profile = "c18" ->
             [slots |-> <<<<"src", "h.h">>, <<"inc", "h.h">>, <<"inc", "g.h">>, <<"ext", "g.h">>>>,
              bodies |-> {"def", "guard", "once", "miss", "unk", "incq", "testX"},
